@@ -472,7 +472,8 @@ def check_schema_eval(prog):
         meta0 = {"id": "http://m/meta#", "$schema": "http://m/u#", "k1": 7, "k0": 3}
         ev, V, VE, log, made, table, id_of = _world(prog, id_key="id", meta_schema=meta0, version="vee")
         g = lambda o, n: ev.obj_getattr(o, n)
-        ca = lambda c, n: ev.expr(__import__("ast").parse("C.%s" % n, mode="eval").body, {"C": c}, None)
+        mk_ca = lambda evx: (lambda c, n: evx.expr(__import__("ast").parse("C.%s" % n, mode="eval").body, {"C": c}, None))
+        ca = mk_ca(ev)
         ev.call_func(prog.func("validators.create"), [], {"meta_schema": {"id": "http://m/u#"}, "validators": {"k1": table["k0"], "k0": table["k0"]},
                                                            "id_of": id_of, "version": "you"})
         cand = {"anything": Tok("candidate-member"), "$schema": "http://m/u#"}
@@ -566,10 +567,29 @@ def check_schema_eval(prog):
             V.vals["META_SCHEMA"] = {"id": "http://m/meta#", "k2": 5, "k0": 3}
             judge(attempt(ca(V, "check_schema")), V, "k2", 5, "Validator.check_schema(candidate) after META_SCHEMA was replaced")
             V.vals["META_SCHEMA"] = meta
+        # the *first* error, not the "best" one: a metaschema whose first failing keyword is anyOf (a weak match for best_match)
+        ev3, V3, VE3, log3, made3, table3, _ = _world(prog, id_key="id", meta_schema={"id": "http://m/weak#", "anyOf": 1, "k1": 7},
+                                                      extra_validators={"anyOf": None})
+        any_errs = []
+
+        def any_kw(validator, value, instance, schema):
+            e = VE3("anyOf-0", path=["deep", "er"])
+            any_errs.append(e)
+            return iter([e])
+        ca3 = mk_ca(ev3)
+        ca3(V3, "VALIDATORS")["anyOf"] = any_kw
+        try:
+            ca3(V3, "check_schema")(cand)
+            out["raises-schema-error"] = out["raises-schema-error"] or "nothing raised although the metaschema's first keyword fails"
+        except PyRaise as pr:
+            if not (isinstance(pr.obj, Obj) and any_errs and g(pr.obj, "message") == "anyOf-0" and g(pr.obj, "validator") == "anyOf"):
+                out["raises-schema-error"] = out["raises-schema-error"] or (
+                    "the error raised is not the first one the metaschema validation yields (an anyOf error with a longer path came first; got %r)" % (
+                        g(pr.obj, "message") if isinstance(pr.obj, Obj) else pr.name,))
         # nothing to complain about: returns None, nothing raised
         ev2, V2, VE2, log2, made2, table2, _ = _world(prog, id_key="id", meta_schema={"id": "http://m/ok#", "k0": 1, "kn": 2})
         try:
-            res = ca(V2, "check_schema")(cand)
+            res = mk_ca(ev2)(V2, "check_schema")(cand)
             if res is not None:
                 out["raises-schema-error"] = "check_schema returns %r for a candidate its metaschema accepts" % (res,)
             if [(c[1], c[3] is cand) for c in log2 if c[0] == "call"] != [("k0", True), ("kn", True)]:
